@@ -48,6 +48,11 @@ func ServeWorker(t *testing.T, plans []nrun.Plan) {
 			return res
 		}
 		res := run()
+		if job.Scenario == "EG" {
+			// every member of the generated family is a cost-0 job: re-running
+			// each of them to vote on a schedule would multiply the family
+			return res
+		}
 		if job.Cost >= budget[job.Scenario] || res.Diverged || len(res.Viol) > 0 || res.Crash != "" {
 			return res
 		}
